@@ -46,8 +46,11 @@ def cmdMirp : P String := do
     match ops with
     | [] => (m, acc.reverse)
     | op :: rest => let r := mstep m op; go r.1 rest (r.2 :: acc)
-  let r := go (Mirp.new size hor) ops []
-  pure ("ok " ++ " ; ".intercalate r.2 ++ " | " ++ showMirp r.1)
+  match Mirp.create size hor with
+  | .error e => pure (showErr e)          -- the constructor raises
+  | .ok m0 =>
+    let r := go m0 ops []
+    pure ("ok " ++ " ; ".intercalate r.2 ++ " | " ++ showMirp r.1)
 
 /-- `mirp.getters <size> <horizon> <k> op… <strict> <choices>` → grid | high cost | seq V L | path pool -/
 def cmdMirpGetters : P String := do
